@@ -252,14 +252,14 @@ func backward[K nodeKey, V any](root nodeRef, restore func(unsafe.Pointer) (K, V
 			case nodeKind4:
 				n4 := (*node4)(n.pointer)
 
-				for i := uint8(0); i < n4.childrenLen; i++ {
+				for i := uint16(0); i < n4.childrenLen; i++ {
 					q = append(q, n4.children[i])
 				}
 
 			case nodeKind16:
 				n16 := (*node16)(n.pointer)
 
-				for i := uint8(0); i < n16.childrenLen; i++ {
+				for i := uint16(0); i < n16.childrenLen; i++ {
 					q = append(q, n16.children[i])
 				}
 
